@@ -14,7 +14,8 @@ STREAMS = ['codec-valid', 'codec-large', 'codec-small-types', 'codec-malformed-v
            'codec-limits', 'codec-mixed-variants', 'codec-deep-variants', 'codec-history']
 THEOREMS = ['Spec.decode_encode', 'C01_roundtrip', 'C01_roundtrip_valid', 'C01_roundtrip_conf', 'C01_roundtrip_checked', 'C01_marshal_arity',
             'C01_roundtrip_any_fuel', 'C01_roundtrip_fuel_free', 'C01_roundtrip_valid_fuel_free',
-            'C01_roundtrip_noVariant_fuel_free', 'C01_roundtrip_conf_fuel_free', 'C01_roundtrip_checked_fuel_free']
+            'C01_roundtrip_noVariant_fuel_free', 'C01_roundtrip_conf_fuel_free', 'C01_roundtrip_checked_fuel_free',
+            'C01_roundtrip_no_list', 'C01_roundtrip_no_list_fuel_free']
 TRUSTED_BASE = [
     "CPython struct.pack/unpack_from, codecs utf-8/ascii, dict, zip/generators, int->float conversion: mirrored in "
     "Wire/Code.lean (pack, unpackFrom, utf8*, buildDict, marshalSeq, intToDouble), validated by the streams, not proved",
@@ -789,9 +790,10 @@ def history_failure(histories):
     return None
 
 
-def fresh_process_failure(ctx, module, histories):
+def fresh_process_failure(ctx, module, histories, where=None):
     """Run the histories in a NEW Python process on the tree under test (nothing of this process's state is there) and
-    return the key of the first failure, or None.  Only called after a violation has been seen."""
+    return the key of the first failure, or None (`where`, a list, receives [history index, step index]).  Only called
+    after a violation has been seen."""
     import json
     import subprocess
     import sys
@@ -802,7 +804,8 @@ def fresh_process_failure(ctx, module, histories):
             'c.use_repo(%r)\n'
             'from harness import %s as h\n'
             'bad = h.history_failure(json.load(sys.stdin))\n'
-            'print("KEY " + json.dumps(bad["key"] if bad else None))\n' % (ctxmod.VERIF, ctx.repo, module))
+            'print("KEY " + json.dumps([bad["key"], bad["history"], bad["step"]] if bad else None))\n'
+            % (ctxmod.VERIF, ctx.repo, module))
     try:
         p = subprocess.run([sys.executable, '-c', code], input=json.dumps(histories).encode(), stdout=subprocess.PIPE,
                            stderr=subprocess.PIPE, timeout=120)
@@ -810,7 +813,10 @@ def fresh_process_failure(ctx, module, histories):
         return None
     for ln in p.stdout.decode('utf-8', 'replace').splitlines():
         if ln.startswith('KEY '):
-            return json.loads(ln[4:])
+            got = json.loads(ln[4:])
+            if got and where is not None:
+                where[:] = got[1:]
+            return got[0] if got else None
     return None
 
 
@@ -876,14 +882,21 @@ class Histories:
         if key in self.reported:
             ctx.violation(key, what, inp=self.reported[key])
         else:
-            inp = self.replayable(key, bad['key'], name, ran)
+            inp = self.replayable(key, bad['key'], name, ran, steps)
             self.reported[key] = inp
             ctx.violation(key, what, inp=inp, observed=bad['observed'], expected=bad['expected'])
         self.done.append(ran)
         return bad
 
-    def replayable(self, key, raw_key, name, ran):
+    def replayable(self, key, raw_key, name, ran, steps):
         ctx = self.ctx
+        if fresh_process_failure(ctx, self.module, [ran]) != raw_key and len(steps) > len(ran):
+            # the checking process was not fresh when the history began (earlier streams, the corpus, the table translators
+            # have used the code): with a clean start the same history may fail a few steps later - then that is the replay
+            where = []
+            if fresh_process_failure(ctx, self.module, [steps], where) == raw_key:
+                ran = steps[:where[1] + 1]
+                ctx.stat('history-violation:fails-later-in-a-fresh-process')
 
         def test(earlier):
             return fresh_process_failure(ctx, self.module, earlier + [ran]) == raw_key
